@@ -170,6 +170,10 @@ def _vol_shapes(tier):
             dict(deg=[1, 2, 2], m=[[], [1], []], d=2, r=2), dict(deg=[2, 1, 2], m=[[1], [], [1]], d=1, r=1),
             # knot vectors kept as given (normalize_kv=False): the inserted value may be 0 or negative
             dict(deg=[1, 1, 1], m=[[], [], []], d=1, r=1, norm=False), dict(deg=[1, 1, 1], m=[[], [], []], d=2, r=1, norm=False)]
+    # insertion at a domain end, every direction
+    for d in range(3):
+        base.append(dict(deg=[1, 2, 1], m=[[], [], [1]], d=d, r=1, at_end='upper'))
+        base.append(dict(deg=[2, 1, 1], m=[[1], [], []], d=d, r=1, at_end='lower', norm=(d != 2)))
     if tier == 'thorough':
         base += [dict(deg=[2, 2, 1], m=[[1], [], []], d=1, r=2), dict(deg=[1, 2, 2], m=[[], [1], []], d=2, r=1),
                  dict(deg=[2, 1, 2], m=[[], [], [1]], d=2, r=2)]
@@ -178,7 +182,7 @@ def _vol_shapes(tier):
 
 @scenario('C04', fns=['operations.insert_knot', 'helpers.knot_insertion', 'BSpline.Volume.insert_knot'],
           quick=lambda: _vol_shapes('quick'), thorough=lambda: _vol_shapes('thorough'))
-def volume_insert(ctx, deg, m, d, r, norm=True):
+def volume_insert(ctx, deg, m, d, r, norm=True, at_end=None):
     """ensures: V(u,v,w) unchanged; only direction d grows"""
     kvs, inner, sizes = [], [], []
     for a, pfx in enumerate('abc'):
@@ -193,6 +197,26 @@ def volume_insert(ctx, deg, m, d, r, norm=True):
     su, sv, sw = sizes
     P = shapes.net(ctx, 'P', su * sv * sw, 3)
     vol = shapes.build_volume(ctx, deg[0], deg[1], deg[2], kvs[0], kvs[1], kvs[2], P, su, sv, sw, normalize_kv=norm)
+    if at_end is not None:
+        # a domain end already has multiplicity degree + 1: every insertion there exceeds the limit, is rejected and leaves
+        # the volume unchanged (method and operations entry points)
+        xe = kvs[d][0] if at_end == 'lower' else kvs[d][-1]
+        exc = ctx.geomdl('exceptions').GeomdlException
+        kw = {('u', 'v', 'w')[d]: xe, ('num_u', 'num_v', 'num_w')[d]: r}
+        try:                         # the method reports the rejection (it prints the error) or raises: either way no effect
+            vol.insert_knot(**kw)
+        except exc:
+            pass
+        prm_l = [None, None, None]
+        num_l = [0, 0, 0]
+        prm_l[d], num_l[d] = xe, r
+        ctx.check_raises('reject.at_domain_end.operations', exc, ctx.geomdl('operations').insert_knot, vol, prm_l, num_l)
+        ctx.check_true('reject.sizes_unchanged', [vol.ctrlpts_size_u, vol.ctrlpts_size_v, vol.ctrlpts_size_w] == list(sizes)
+                       and len(vol.ctrlpts) == su * sv * sw)
+        for a_, got_ in enumerate((vol.knotvector_u, vol.knotvector_v, vol.knotvector_w)):
+            ctx.check_eq_vec('reject.kv%d_unchanged' % a_, got_, kvs[a_])
+        ctx.check_eq_grid('reject.ctrlpts_unchanged', vol.ctrlpts, P)
+        return
     s = sum(1 for k in kvs[d] if x == k)
     if r > deg[d] - s:
         ctx.skip('rejected case covered at curve level')
